@@ -463,7 +463,7 @@ _item = st.fixed_dictionaries(
         "pad": st.sampled_from([0, 0, 16, 300, 300, 5000, 12000]),  # large log texts travel in the same upload as the data batch
     }
 )
-_deltas = st.sampled_from([-8, -1, -1, 0, 0, 1, 1, 8])
+_deltas = st.sampled_from([-8, -1, -1, 0, 0, 0, 1, 1, 8])
 _range = {"a": st.integers(0, 5), "b": st.integers(0, 5), "delta": _deltas}
 _abs = st.fixed_dictionaries({"abs": st.one_of(st.sampled_from([1, 64, 500, 1000, 4096, 1 << 20]), st.integers(1, 9000))})
 _wire_rel = st.fixed_dictionaries({"of": st.just("body"), **_range})  # producer: rewritten to "group" in _mk
@@ -560,4 +560,4 @@ producer_codec_cases = st.builds(
 def main(chk: Check) -> None:
     chk.explore("caps", cases, run_case, quick=900, thorough=10000)
     chk.explore("producer_codec", producer_codec_cases, run_case, quick=150, thorough=2500)
-    chk.explore("producer_ext", producer_ext_cases, run_case, quick=300, thorough=3000)
+    chk.explore("producer_ext", producer_ext_cases, run_case, quick=700, thorough=6000)
